@@ -11,7 +11,7 @@ from props.c17_fam import H, IT, REP, SEQ, fs, families
 F = fractions.Fraction
 PID = 'C17'
 COQ_DIRS = ['common', 'C17']
-TARGETS = ['C17/Props.vo', 'C17/Corr.vo', 'C17/GenEq.vo']
+TARGETS = ['C17/Props.vo', 'C17/Corr.vo', 'C17/GenEq.vo', 'C17/GenObjEq.vo']
 MODEL_TARGETS = ['C17/Corr.vo']
 PROPS_FILE = 'C17/Props.v'
 PROPS_MODULE = 'QV.C17.Props'
@@ -200,7 +200,9 @@ def g_volt(v, idxs, subst):
         if name in coefs:
             base += coefs[name] * o
             coefs[name] = coefs[name] * s
-    return '(VAff %s %s)' % (gQ(base), glist(gQ, [coefs.get(n, F(0)) for n in idxs]))
+    # an index name that is bound again further in is shadowed: the coefficient belongs to the innermost loop of that name
+    return '(VAff %s %s)' % (gQ(base), glist(gQ, [coefs.get(n, F(0)) if n not in idxs[k + 1:] else F(0)
+                                                   for k, n in enumerate(idxs)]))
 
 
 def g_src(t, channels, idxs=(), subst=()):
@@ -386,7 +388,12 @@ def ensure_index_used(rng, body, name, chans):
 def mk_run(rng, tree, chans, exact=True):
     order = list(chans)
     rng.shuffle(order)
-    return {'kind': 'run', 'channels': order, 'tree': tree, 'exact': exact}
+    c = {'kind': 'run', 'channels': order, 'tree': tree, 'exact': exact}
+    if rng.random() < 0.25:
+        # the same template object builds the default and the linspace program, the program is translated twice and the
+        # second command list is run (stale caches, state left behind by the first use)
+        c['reuse'] = True
+    return c
 
 
 def boundary_cases():
@@ -501,6 +508,11 @@ def enum_small(tier):
 def gen_cases(rng, tier, ctx):
     cases = boundary_cases()
     cases.extend(families(rng, tier))
+    # G: hold durations that depend on a loop index (outside the quantifier): the translator must refuse them
+    for n in (2, 3):
+        for d1 in ('1/2', '1', '0'):
+            cases.append({'kind': 'dur', 'channels': ['a'], 'n': n, 'dur': ['1', d1], 'a': ['1/4', '1/2']})
+    cases.append({'kind': 'dur', 'channels': ['a'], 'n': 4, 'dur': ['2', '-1/4'], 'a': ['0', '0']})
     small = enum_small(tier)
     if tier == 'quick':
         # all one-channel nests of depth <= 2 plus a sample of the thorough tier's multi-channel / depth-3 enumeration
@@ -553,7 +565,7 @@ def gen_cases(rng, tier, ctx):
         if rng.random() < 0.3:
             for _ in range(rng.choice([1, 2, 2])):
                 hw.insert(rng.randint(0, len(hw)), [None, fs(rng.choice([1, 2, F(1, 2), 8])), fs(rnd_dyadic(rng, -8, 8, 4))])
-        cases.append({'kind': 'scale', 'channels': order, 'hw': hw, 'tree': tree})
+        cases.append({'kind': 'scale', 'channels': order, 'hw': hw, 'tree': tree, 'reuse': rng.random() < 0.25})
     return cases
 
 
@@ -598,6 +610,8 @@ def run_impl(case):
     from qupulse.program.linspace import LinSpaceBuilder, LinSpaceVM, to_increment_commands
     from qupulse.utils.types import TimeType
     chans = case['channels']
+    if case['kind'] == 'dur':
+        return run_impl_dur(case)
     try:
         with vlib.time_limit(20):
             pt = build_template(case['tree'])
@@ -614,7 +628,8 @@ def run_impl(case):
     obs = {'dflt': dflt, 'dflt_total': dtot, 'steps': 0}
     try:
         with vlib.time_limit(20):
-            pt = build_template(case['tree'])
+            if not case.get('reuse'):
+                pt = build_template(case['tree'])
             prog = pt.create_program(parameters=params, program_builder=LinSpaceBuilder(tuple(chans)))
             if prog is None:
                 obs.update(hist=[], total='0')
@@ -628,8 +643,18 @@ def run_impl(case):
                                      voltage_transformations=tuple(None for _ in hw), sample_rate=TimeType.from_float(1.0),
                                      program_type=_ProgramType.Linspace)
                 cmds = entry._transformed_commands
+                if case.get('reuse'):
+                    # a second entry from the same program object must not see the first one's scaling
+                    entry = ProgramEntry(prog, channels=tuple(h[0] for h in hw), markers=(),
+                                         amplitudes=tuple(float(F(h[1])) for h in hw),
+                                         offsets=tuple(float(F(h[2])) for h in hw),
+                                         voltage_transformations=tuple(None for _ in hw), sample_rate=TimeType.from_float(1.0),
+                                         program_type=_ProgramType.Linspace)
+                    cmds = entry._transformed_commands
             else:
                 cmds = to_increment_commands(prog)
+                if case.get('reuse'):
+                    cmds = to_increment_commands(prog)
             vm = LinSpaceVM(len(chans))
             vm.set_commands(cmds)
             n = 0
@@ -644,6 +669,56 @@ def run_impl(case):
             return obs
     except vlib.Timeout:
         return {'hang': True}
+    except (AttributeError, AssertionError, KeyError, IndexError) as e:
+        obs['err'] = ERRMAP[type(e).__name__]
+        return obs
+    except Exception as e:
+        return {'crash': '%s: %s' % (type(e).__name__, e)}
+
+
+def run_impl_dur(case):
+    """for i in range(n): hold(duration = d0 + d1*i, a = b + c*i).  Reference: the default program of the template.  The
+    linspace program is built by driving LinSpaceBuilder directly with a SimpleExpression duration (through the template
+    ConstantPT.build_waveform already fails on `duration > 0`; recorded as obs['template_path'])"""
+    from qupulse.pulses import ConstantPT, ForLoopPT
+    from qupulse.program import SimpleExpression
+    from qupulse.program.linspace import LinSpaceBuilder, LinSpaceVM, to_increment_commands
+    from qupulse.utils.types import TimeType
+    n = case['n']
+    d0, d1 = (F(x) for x in case['dur'])
+    b, c = (F(x) for x in case['a'])
+    try:
+        with vlib.time_limit(20):
+            pt = ForLoopPT(ConstantPT('(%r) + (%r)*i' % (float(d0), float(d1)), {'a': '(%r) + (%r)*i' % (float(b), float(c))}), 'i', (0, n, 1))
+            dflt, dtot = _unroll_default(pt.create_program(), ['a'])
+    except Exception as e:
+        return {'crash': 'reference program failed: %s: %s' % (type(e).__name__, e)}
+    obs = {'dflt': dflt, 'dflt_total': dtot, 'steps': 0}
+    try:
+        pt.create_program(program_builder=LinSpaceBuilder(('a',)))
+        obs['template_path'] = 'built'
+    except Exception as e:
+        obs['template_path'] = type(e).__name__
+    try:
+        with vlib.time_limit(20):
+            builder = LinSpaceBuilder(('a',))
+            for bb in builder.with_iteration('i', range(n)):
+                bb.hold_voltage(SimpleExpression(TimeType.from_fraction(d0.numerator, d0.denominator),
+                                                 {'i': TimeType.from_fraction(d1.numerator, d1.denominator)}),
+                                {'a': SimpleExpression(float(b), {'i': float(c)})})
+            prog = builder.to_program()
+            cmds = to_increment_commands(prog)
+            vm = LinSpaceVM(1)
+            vm.set_commands(cmds)
+            vm.run()
+            obs['hist'] = [[vlib.frac_json(t), [_val(v) for v in vals]] for t, vals in vm.history]
+            obs['total'] = vlib.frac_json(vm.time)
+            return obs
+    except vlib.Timeout:
+        return {'hang': True}
+    except NotImplementedError:
+        obs['err'] = 'ENotImpl'
+        return obs
     except (AttributeError, AssertionError, KeyError, IndexError) as e:
         obs['err'] = ERRMAP[type(e).__name__]
         return obs
@@ -673,6 +748,8 @@ def g_iobs(obs):
 
 
 def fuel_of(case, obs):
+    if case['kind'] == 'dur':
+        return 64
     return 64 + 2 * obs.get('steps', 0) + len(obs['dflt']) * (len(case['channels']) + 12) * 2
 
 
@@ -680,6 +757,8 @@ def to_coq(case, obs):
     if 'crash' in obs or 'hang' in obs:
         return 'CCrash'
     chans = case['channels']
+    if case['kind'] == 'dur':
+        return '(CDur %s %s %s %s)' % (glist(gQ, [F(case['dur'][1])]), g_iobs(obs), g_steps(obs['dflt']), gQ(F(obs['dflt_total'])))
     if case['kind'] == 'run' and _has(case['tree'], lambda x: x['t'] == 'remap'):
         return '(CRun2 %s %d%%positive %s %s %s %s %s)' % (
             vlib.gnat(len(chans)), fuel_of(case, obs), g_src2(case['tree'], chans), gbool(case.get('exact', True)), g_iobs(obs),
@@ -710,6 +789,8 @@ def _has(tree, pred):
 
 
 def nontrivial(case, obs):
+    if case['kind'] == 'dur':
+        return True
     for x in walk(case['tree']):
         if x['t'] == 'iter' and len(range(x['start'], x['stop'], x['step'])) >= 2:
             if _has(x['body'], lambda h: h['t'] == 'hold' and any(v['k'] == 'aff' and F(v['coefs'].get(x['idx'], 0)) != 0
@@ -720,6 +801,8 @@ def nontrivial(case, obs):
 
 def histogram_keys(case, obs):
     keys = [case['kind'], 'channels:%d' % len(case['channels'])]
+    if case['kind'] == 'dur':
+        return keys + ['dur:template_path=%s' % obs.get('template_path'), 'obs:' + obs.get('err', 'hist')]
     if case.get('fam'):
         keys.append('fam:' + case['fam'])
     kinds = {x['t'] for x in walk(case['tree'])}
@@ -754,6 +837,8 @@ def histogram_keys(case, obs):
         keys.append('hist_len:%s' % ('0' if not obs['hist'] else '1-9' if len(obs['hist']) < 10 else '10-49' if len(obs['hist']) < 50 else '50+'))
     else:
         keys.append('obs:crash')
+    if case.get('reuse'):
+        keys.append('reused_objects')
     if case['kind'] == 'scale' and any(h[0] is None for h in case['hw']):
         keys.append('scale:unused_outputs')
     if not case.get('exact', True):
@@ -780,7 +865,6 @@ def _reachable_holds(t, live=True):
 
 
 def classify(case, obs):
-    tree = case['tree']
     if 'crash' in obs or 'hang' in obs:
         return None
     return None
@@ -789,6 +873,8 @@ def classify(case, obs):
 def _py_spec_ok(case, obs):
     """python reading of check_spec (used by search_failing / shrink): the implementation's history is the staircase of
     the default program; scale cases: with channel k replaced by (v - offset_k) / amplitude_k"""
+    if case['kind'] == 'dur' and obs.get('err') == 'ENotImpl':
+        return True          # explicit refusal: nothing is played
     if 'hist' not in obs:
         return False
     if len(obs['hist']) != len(obs['dflt']) or F(obs['total']) != F(obs['dflt_total']):
@@ -867,6 +953,8 @@ def shrink(case, obs, ctx):
 
 def _shrink_candidates(case):
     import copy
+    if case['kind'] == 'dur':
+        return
     tree = case['tree']
 
     def variants(t):
